@@ -61,7 +61,8 @@ def read_sexpr(text: str):
 BINOPS = {"+": "Add", "-": "Sub", "*": "Mul", "Add": "Add", "Subtract": "Sub", "Multiply": "Mul"}
 CMPOPS = {"<": "LT", "<=": "LE", ">": "GT", ">=": "GE", "==": "EQ", "!=": "NEQ",
           "LT": "LT", "LTEQ": "LE", "GT": "GT", "GTEQ": "GE", "EQ": "EQ", "NEQ": "NEQ"}
-AGGOPS = {"Sum": "AggSum", "Collect": "AggCollect", "Count": "AggCount"}
+AGGOPS = {"Sum": "Sum", "Collect": "Collect", "Count": "Count", "Max": "Max"}     # -> Agg<op> / Scan<op>
+SITES = {"MatrixMapRows": "mrows", "MatrixMapCols": "mcols", "TableMapRows": "trows"}
 ID_APPLY = {"toInt64", "toInt32"}
 
 
@@ -225,20 +226,32 @@ def to_table(sx):
         if h == "StreamAgg":
             _arity(f, 4)
             return tt.add("StreamAgg", k=[go(f[2]), go(f[3])], n=[_atom(f[1], h)])
-        if h == "ApplyAggOp":
+        if h in ("ApplyAggOp", "ApplyScanOp"):
             _arity(f, 4)
             op = _atom(f[1], h)
             if op not in AGGOPS or not isinstance(f[2], list) or not isinstance(f[3], list) or f[2]:
-                raise Unmappable(f"ApplyAggOp {op}")
+                raise Unmappable(f"{h} {op}")
             want = 0 if op == "Count" else 1
             if len(f[3]) != want:
-                raise Malformed(f"ApplyAggOp {op}: {len(f[3])} seq args")
-            return tt.add(AGGOPS[op], k=[go(x) for x in f[3]])
+                raise Malformed(f"{h} {op}: {len(f[3])} seq args")
+            return tt.add(("Agg" if h == "ApplyAggOp" else "Scan") + AGGOPS[op], k=[go(x) for x in f[3]])
         if h == "AggFilter":
             _arity(f, 4)
-            if f[1] != "False":
-                raise Unmappable("scan AggFilter")
-            return tt.add("AggFilter", k=[go(f[2]), go(f[3])])
+            if f[1] not in ("False", "True"):
+                raise Malformed(f"AggFilter is_scan {f[1]}")
+            return tt.add("AggFilter" if f[1] == "False" else "ScanFilter", k=[go(f[2]), go(f[3])])
+        if h == "StreamAggScan":
+            _arity(f, 4)
+            return tt.add("StreamAggScan", k=[go(f[2]), go(f[3])], n=[_atom(f[1], h)])
+        if h in SITES:
+            # (MatrixMapRows child newrow) (TableMapRows child newrow) (MatrixMapCols newkey child newcol): the child
+            # relation is opaque (it must not contain anything the renderer lifted)
+            body = f[-1]
+            child = f[-2]
+            _arity(f, 4 if h == "MatrixMapCols" else 3)
+            if "__cse_" in repr(child):
+                raise Unmappable(f"{h}: lifted names inside the child relation")
+            return tt.add("Site", k=[go(body)], n=[SITES[h]])
         if h == "AggExplode":
             _arity(f, 5)
             if f[2] != "False":
@@ -265,6 +278,9 @@ def unfold(tab, drop=("Id",)):
         nd = nodes[i - 1]
         if nd["op"] in drop:
             r = go(nd["k"][0])
+        elif nd["op"] == "Site" and nodes[nd["k"][0] - 1]["op"] == "InsertFields" and nodes[nd["k"][0] - 1]["n"] == ["out"]:
+            # the harness wraps a generated Int32 new-row expression as (InsertFields (Ref va) None (out e))
+            r = ("Site", tuple(nd["n"]), 0, (go(nodes[nd["k"][0] - 1]["k"][1]),))
         else:
             r = (nd["op"], tuple(nd["n"]), nd["v"], tuple(go(c) for c in nd["k"]))
         memo[i] = r
@@ -311,20 +327,21 @@ def has_shared_objects(root):
 
 def wrapper_free(dag):
     """the real IR built for this DAG has exactly the DAG's nodes (no cast / ToStream / ToArray wrappers)"""
-    if any(nd["op"] in ("AggSum", "AggCount") for nd in dag["nodes"]):
+    if any(nd["op"] in ("AggSum", "AggCount", "ScanSum", "ScanCount", "Site") for nd in dag["nodes"]):
         return False
     if dag.get("implicit"):
-        return not any(nd["op"] in ("StreamMap", "StreamFilter", "StreamFold", "StreamAgg", "AggExplode") for nd in dag["nodes"])
+        return not any(nd["op"] in ("StreamMap", "StreamFilter", "StreamFold", "StreamAgg", "StreamAggScan", "AggExplode") for nd in dag["nodes"])
     return True
 
 
 CSE_NAME = re.compile(r"^__cse_\d+$")
+LET_OPS = ("Let", "AggLet", "ScanLet")
 
 
 def lifted_names(tab):
     out = []
     for nd in tab["nodes"]:
-        if nd["op"] in ("Let", "AggLet") and CSE_NAME.match(nd["n"][0]):
+        if nd["op"] in LET_OPS and CSE_NAME.match(nd["n"][0]):
             out.append(nd["n"][0])
     return out
 
@@ -333,6 +350,8 @@ def lifted_names(tab):
 # specification DAG -> real hail.ir objects
 def ref_type(name, hl):
     """variables are typed by the first letter of their name (same convention as IRDags.tla)"""
+    if name in SITE_VARS:
+        return hl.tstruct(**{SITE_VARS[name]: hl.tint32})
     c = name.lstrip("_")[0]
     if c == "a":
         return hl.tarray(hl.tint32)
@@ -341,8 +360,28 @@ def ref_type(name, hl):
     return hl.tint32
 
 
+SITE_VARS = {"va": "row_idx", "sa": "col_idx", "row": "idx"}
 _BIN = {"Add": "+", "Sub": "-", "Mul": "*"}
+
+
 _CMP = {"LT": "<", "LE": "<=", "GT": ">", "GE": ">=", "EQ": "==", "NEQ": "!="}
+_SITE_CHILD = {}
+
+
+def _site_root(kind, body, hl, ir):
+    """the relational node of a binding site over a 3 x 2 range matrix table / 3-row range table; the new-row
+    expression is the site's element struct with the generated Int32 expression inserted as field `out`"""
+    if not _SITE_CHILD:
+        t = hl.utils.range_table(3)
+        mt = hl.utils.range_matrix_table(3, 2)
+        _SITE_CHILD.update(t=(t._tir, t.row.dtype), mt=(mt._mir, mt.row.dtype, mt.col.dtype))
+    if kind == "trows":
+        child, rt = _SITE_CHILD["t"]
+        return ir.TableMapRows(child, ir.InsertFields(ir.Ref("row", rt), [("out", body)], None))
+    child, rt, ct = _SITE_CHILD["mt"]
+    if kind == "mrows":
+        return ir.MatrixMapRows(child, ir.InsertFields(ir.Ref("va", rt), [("out", body)], None))
+    return ir.MatrixMapCols(child, ir.InsertFields(ir.Ref("sa", ct), [("out", body)], None), None)
 
 
 def build_ir(dag, hl, ir, unwrap=True, share_refs=False):
@@ -426,6 +465,22 @@ def build_ir(dag, hl, ir, unwrap=True, share_refs=False):
             o = ir.ApplyAggOp("Collect", [], [k[0]])
         elif op == "AggCount":
             o = ir.Cast(ir.ApplyAggOp("Count", [], []), hl.tint32)
+        elif op == "StreamAggScan":
+            o = ir.StreamAggScan(stream(k[0]), n[0], k[1])
+            if implicit:
+                o = ir.ToArray(o)
+        elif op == "ScanSum":
+            o = ir.Cast(ir.ApplyScanOp("Sum", [], [ir.Cast(k[0], hl.tint64)]), hl.tint32)
+        elif op == "ScanCollect":
+            o = ir.ApplyScanOp("Collect", [], [k[0]])
+        elif op == "ScanCount":
+            o = ir.Cast(ir.ApplyScanOp("Count", [], []), hl.tint32)
+        elif op == "ScanFilter":
+            o = ir.AggFilter(k[0], k[1], True)
+        elif op == "ScanLet":
+            o = ir.AggLet(n[0], k[0], k[1], True)
+        elif op == "Site":
+            o = _site_root(n[0], k[0], hl, ir)
         elif op == "AggFilter":
             o = ir.AggFilter(k[0], k[1], False)
         elif op == "AggLet":
@@ -629,6 +684,83 @@ def api_cases(hl):
     def agg_result_uses_outer_lambda_var_once():
         inner = A()
         return A().map(lambda y: inner.aggregate(lambda x: hl.agg.sum(x) + hl.int64(y)))
+
+    # ---- scans next to aggregations (relational binding sites) ----
+    @case
+    def mt_rows_agg_twice_scan_once():
+        mt = hl.utils.range_matrix_table(3, 3)
+        e = mt.row_idx * 2
+        return mt.annotate_rows(a=hl.agg.sum(e) + hl.agg.max(e), b=hl.scan.sum(e))
+
+    @case
+    def mt_rows_scan_twice_agg_once():
+        mt = hl.utils.range_matrix_table(3, 3)
+        e = mt.row_idx * 2
+        return mt.annotate_rows(a=hl.agg.sum(e), b=hl.scan.sum(e) + hl.scan.max(e))
+
+    @case
+    def mt_rows_agg_twice_scan_twice_eval_twice():
+        mt = hl.utils.range_matrix_table(3, 3)
+        e = mt.row_idx * 2
+        return mt.annotate_rows(a=hl.agg.sum(e) + hl.agg.max(e), b=hl.scan.sum(e) + hl.scan.max(e), c=e + e)
+
+    @case
+    def mt_rows_shared_inside_one_agg_arg_and_one_scan_arg():
+        mt = hl.utils.range_matrix_table(3, 3)
+        e = mt.row_idx + 1
+        return mt.annotate_rows(a=hl.agg.sum(e * e), b=hl.scan.sum(e), c=hl.scan.count())
+
+    @case
+    def mt_rows_agg_filter_and_scan_filter_share_condition():
+        mt = hl.utils.range_matrix_table(3, 3)
+        e = mt.row_idx * 2
+        return mt.annotate_rows(a=hl.agg.filter(e > 1, hl.agg.sum(e)), b=hl.scan.filter(e > 1, hl.scan.sum(e)))
+
+    @case
+    def mt_cols_agg_and_scan():
+        mt = hl.utils.range_matrix_table(3, 3)
+        c = mt.col_idx + 1
+        return mt.annotate_cols(a=hl.agg.sum(c) + hl.agg.max(c), b=hl.scan.sum(c) + hl.scan.sum(c * c), d=hl.scan.max(c))
+
+    @case
+    def mt_cols_agg_twice_scan_once():
+        mt = hl.utils.range_matrix_table(3, 3)
+        c = mt.col_idx * 3
+        return mt.annotate_cols(a=hl.agg.sum(c) + hl.agg.max(c), b=hl.scan.count() + hl.scan.sum(c))
+
+    @case
+    def table_scans_and_eval_share():
+        t = hl.utils.range_table(3)
+        f = t.idx * 2
+        return t.annotate(b=hl.scan.sum(f) + hl.scan.max(f), c=f + f)
+
+    @case
+    def table_scan_once_eval_twice():
+        t = hl.utils.range_table(3)
+        f = t.idx * 2
+        return t.annotate(b=hl.scan.sum(f), c=f + f)
+
+    @case
+    def table_scan_filter_shared():
+        t = hl.utils.range_table(3)
+        f = t.idx * 2
+        return t.annotate(b=hl.scan.filter(f > 1, hl.scan.sum(f)) + hl.scan.count())
+
+    @case
+    def table_two_scans_inside_if():
+        t = hl.utils.range_table(3)
+        f = t.idx + 1
+        s = hl.scan.sum(f)
+        return t.annotate(b=hl.if_else(t.idx > 0, s + s, s) + hl.scan.max(f))
+
+    @case
+    def local_array_scan_shared():
+        a = A()
+        def sc(x):
+            y = x + 1
+            return hl.scan.sum(y * y) + hl.scan.max(y)
+        s1 = a._to_stream()._aggregate_scan(sc).to_array()
+        return hl.len(s1) + hl.len(s1)
 
     @case
     def agg_result_uses_outer_var_twice_plus_count():
